@@ -72,7 +72,7 @@ func PutBlockDesc(c *wire.Case, b *pbfgen.Block) error {
 				}
 				c.Int(0).Bool(d.HasInfo)
 				putFlags(c, d.Cols)
-				c.Bool(d.HasKeysVals).Len(len(d.Nodes))
+				c.Bool(d.HasKeysVals).Bool(d.OmitEmptyCols).Len(len(d.Nodes))
 				for _, n := range d.Nodes {
 					c.Int(n.ID).Int(n.Lat).Int(n.Lon)
 					putInfo(c, n.Info)
